@@ -8,7 +8,7 @@ import core
 import gen
 
 PID = 'C17'
-MODULES = ['FFVerif.Proofs.C17']
+MODULES = ['FFVerif.Proofs.C17', 'FFVerif.Proofs.C17Welch']
 
 
 def fail(res, clause, case, out, sig=None):
@@ -123,6 +123,23 @@ def explore(res, rng, n):
         frw, prw = signal.welch(x, fs2, nperseg=min(8, L))
         res.evaluations += 1
         case2 = {'series': x.tolist(), 'fs': fs2}
+        # the Welch estimate as the mathematical object of Proofs/C17Welch.lean (segments of length L every L - L//2 samples, segment mean
+        # removed, periodic Hann window, density scaling, interior bins doubled, average), written out here and compared with what the
+        # wrapper returns: the theorems C17w_* are about this object
+        Lw = min(8, L)
+        stepw = Lw - Lw // 2
+        nsegw = (L - Lw // 2) // stepw
+        win = 0.5 - 0.5 * np.cos(2 * np.pi * np.arange(Lw) / Lw) if Lw > 1 else np.ones(1)
+        acc = np.zeros(Lw // 2 + 1)
+        for sgi in range(nsegw):
+            seg = x[sgi * stepw: sgi * stepw + Lw]
+            spec = np.abs(np.fft.rfft(win * (seg - np.mean(seg)))) ** 2
+            acc += spec
+        refw = acc / nsegw / (fs2 * np.sum(win ** 2))
+        refw[1:(Lw + 1) // 2] *= 2
+        if len(refw) != len(pw) or not np.allclose(refw, pw, rtol=1e-9, atol=1e-12 * (float(np.max(np.abs(pw))) + 1e-300)):
+            fail(res, 'welchSpectrum is not the averaged windowed one-sided density of its segments (the object of the Welch theorems)', case2,
+                 {'wrapper': [float(v) for v in pw[:4]], 'definition': [float(v) for v in refw[:4]]})
         if not (np.array_equal(f1, fr) and np.array_equal(p1, pr) and np.array_equal(fw, frw) and np.array_equal(pw, prw)):
             fail(res, 'wrapper does not forward to scipy.signal unchanged', case2, None)
         if np.any(p1 < 0) or not np.allclose(f1, np.arange(len(f1)) * fs2 / L, rtol=1e-12, atol=1e-12):
